@@ -79,3 +79,84 @@ Check SrcTie2.mark_cont_sim.
 Theorem C09_tie_mark_cont_sim : ltac:(let t := type of SrcTie2.mark_cont_sim in exact t).
 Proof. exact SrcTie2.mark_cont_sim. Qed.
 Print Assumptions C09_tie_mark_cont_sim.
+
+(* ================= work package `carry`: C09 about the GENERATED code =================
+   The subject of the theorems below is gen/Src2.v, re-translated from /repo's ArchiveWriter on every
+   run (start_file, append_file_content, end_file, finalize, add_file, flush), folded over a call list
+   by CarryWriter.src_wstep / src_wrun.  They are obtained by composing the simulations above with the
+   model theorems; a source edit that breaks the property leaves one of them unprovable. *)
+From MLA Require CarryWriter.
+From MLAGen Require Src2.
+Import SrcTie2 CarryWriter.
+
+(* the translated writer run over any call list, from any state in the representation invariant
+   (the from_config value is: C09_tie_RInv_init), returns the model's results call by call, ends in a
+   state whose abstraction is the model's final state, with the same destination bytes, and stays in
+   the invariant *)
+Theorem C09_src_wrun_sim :
+  forall FNMAX TS TC TA TE H order ops (s : Src2.ArchiveWriter), RInv s ->
+    let '(s', rs) := src_wrun FNMAX TS TC TA TE H order s ops in
+    absW s' = fst (wrun FNMAX TS TC TA TE H order (absW s) ops) /\
+    rs = snd (wrun FNMAX TS TC TA TE H order (absW s) ops) /\
+    RInv s' /\ Src2.dest s' = w_out (fst (wrun FNMAX TS TC TA TE H order (absW s) ops)).
+Proof. exact src_wrun_sim. Qed.
+
+(* a call of the TRANSLATED writer refused for a reason known before writing leaves the whole Rust
+   value as it was: destination bytes, state enum with its id vector and hash map, files_info,
+   ids_info, next_id, current_id (absW is injective on the invariant: C09_absW_inj) *)
+Theorem C09_refused_noop_src :
+  forall FNMAX TS TC TA TE H order (s : Src2.ArchiveWriter) o s' e, RInv s ->
+    src_wstep FNMAX TS TC TA TE H order s o = (s', Err e) -> pre_write e = true -> s' = s.
+Proof. exact refused_noop_src. Qed.
+Theorem C09_absW_inj : forall s s' : Src2.ArchiveWriter, RInv s -> RInv s' -> absW s = absW s' -> s = s'.
+Proof. exact absW_inj. Qed.
+
+Theorem C09_refused_erasable_src :
+  forall FNMAX TS TC TA TE H order ops (s : Src2.ArchiveWriter), RInv s ->
+    let '(s1, rs) := src_wrun FNMAX TS TC TA TE H order s ops in
+    src_wrun FNMAX TS TC TA TE H order s (erase ops rs) = (s1, kept rs).
+Proof. exact refused_erasable_src. Qed.
+
+(* after Finalized every translated method but flush returns WrongWriterState and the value is
+   unchanged — for EVERY value of the Rust struct, in the invariant or not *)
+Theorem C09_finalized_refuses_src :
+  forall FNMAX TS TC TA TE H order (s : Src2.ArchiveWriter) o,
+    Src2.state s = Src2.Finalized -> o <> OFlush ->
+    src_wstep FNMAX TS TC TA TE H order s o = (s, Err EState).
+Proof. exact finalized_refuses_src. Qed.
+
+(* the translated append_file_content / add_file never return Ok on a source shorter than announced *)
+Theorem C09_short_source_not_ok_src :
+  forall FNMAX TS TC TA TE (s : Src2.ArchiveWriter) id size src, RInv s -> len src < size ->
+    forall s' v, Src2.append_file_content FNMAX TS TC TA TE s id size src <> (s', Ok v).
+Proof. intros FNMAX TS TC TA TE. exact (short_source_not_ok_src FNMAX TS TC TA TE (fun b => b)). Qed.
+Theorem C09_short_source_add_not_ok_src :
+  forall FNMAX TS TC TA TE H (s : Src2.ArchiveWriter) name size src, RInv s -> len src < size ->
+    forall s' v, Src2.add_file FNMAX TS TC TA TE H s name size src <> (s', Ok v).
+Proof. intros FNMAX TS TC TA TE H. exact (short_source_add_not_ok_src FNMAX TS TC TA TE H (fun f => f)). Qed.
+
+(* non-vacuity THROUGH THE GENERATED CODE: a duplicate, an over-long name, an unknown id are refused and
+   leave the translated writer value unchanged; a short source is reported; a run ending in finalize is
+   all Ok and a later call is refused *)
+Example C09_example_src :
+  (let step := src_wstep 4 0 1 254 255 (fun b => b) (fun f => f) in
+   let '(s1, r1) := step aw0 (OStart [97]) in
+   let '(s2, r2) := step s1 (OStart [97]) in
+   let '(s3, r3) := step s2 (OStart [1;2;3;4;5]) in
+   let '(s4, r4) := step s3 (OAppend 0 3 [7; 8]) in
+   let '(s5, r5) := step s3 (OEnd 7) in
+   r1 = Ok 0 /\ r2 = Err EDup /\ s2 = s1 /\ r3 = Err ENameTooLong /\ s3 = s1 /\ r4 = Err EShortSource /\
+   r5 = Err EState /\ s5 = s3) /\
+  (let '(sf, rs) := src_wrun 4 0 1 254 255 (fun b => b) (fun f => f) aw0
+                      [OStart [97]; OAppend 0 2 [7; 8]; OAdd [98] 1 [9]; OFlush; OEnd 0; OFinalize] in
+   rs = [Ok 0; Ok 0; Ok 0; Ok 0; Ok 0; Ok 0] /\ Src2.state sf = Src2.Finalized /\
+   snd (src_wstep 4 0 1 254 255 (fun b => b) (fun f => f) sf (OStart [99])) = Err EState).
+Proof. split; vm_compute; repeat split; reflexivity. Qed.
+
+Print Assumptions C09_src_wrun_sim.
+Print Assumptions C09_refused_noop_src.
+Print Assumptions C09_absW_inj.
+Print Assumptions C09_refused_erasable_src.
+Print Assumptions C09_finalized_refuses_src.
+Print Assumptions C09_short_source_not_ok_src.
+Print Assumptions C09_short_source_add_not_ok_src.
